@@ -75,6 +75,20 @@ def mechRng (m : Mech) (s : Seed) : RngSrc :=
   let r := crs s true
   if m.swaps && r == .osCsprng then .freshGenerator else r
 
+/-- the public ways of obtaining a mechanism instance other than the constructor -/
+inductive CopyWay where
+  | shallow   -- `mech.copy()`, `copy.copy(mech)`: the copy SHARES the generator object
+  | deep      -- `copy.deepcopy(mech)`, pickle round-trip: the generator is duplicated
+  deriving DecidableEq, Repr
+
+/-- source of the `_rng` of an instance obtained by copying one whose `_rng` has source `r`.  A SystemRandom has no
+state (`getstate` raises NotImplementedError), so a deep copy of a mechanism holding one yields no instance at all;
+RandomState / Generator objects are duplicated with their class. -/
+def copySrc : CopyWay → RngSrc → RngSrc
+  | .shallow, r => r
+  | .deep, .osCsprng => .error
+  | .deep, r => r
+
 /-- tool / estimator preamble: `random_state = check_random_state(random_state)` -/
 def hop (s : Seed) : Seed := (crs s false).asSeed
 
